@@ -118,7 +118,7 @@ def work_hist(item):
     for tail in itertools.product(HIST_OPS, repeat=length - 1):
         seq = (first,) + tail
         U = H.Universe()
-        net = U.M.Network(name="h")
+        net = U.Network(name="h")
         m = H.Model()
         out["paths"] += 1
         try:
@@ -191,7 +191,7 @@ def replay(rec):
     if rec["kind"] == "tags":
         return 0 if replay_tags(rec["tags"], rec["with_o"], rec["with_d"]) else 1
     if rec["kind"] == "hist":
-        net, m = U.M.Network(name="h"), H.Model()
+        net, m = U.Network(name="h"), H.Model()
         problems = []
         for nm in rec["seq"]:
             ops[nm][1](net, U)
